@@ -83,15 +83,26 @@ class C07(Property):
         g = ConcBase()
         g.trees = TREES
         res += [(s, c) for s, c in g.gen(tier, seed, K_PROGS, 7)]
+        # what keeps safe code from racing on the USER's data and resolver are the Send / Sync bounds of the handles and of
+        # the borrowed text views: rustc decides them for witness types (the same programs as C08, for the node handle and
+        # the views)
+        from .p_c08 import PROPERTY as C08P
+        res += [(s, c) for s, c in C08P.cases(tier, seed) if c.startswith("A handle SyntaxNode ") or c.startswith("A gen SyntaxNode ")
+                or c.startswith("A text ") or c.startswith("A ctor ")]
         return res
 
     def custom_impl(self, cases, profile):
         exe = core.build_harness(profile, hooks=True)
         ks = [c for c in cases if c.startswith("K ")]
         kout = dict(zip(ks, core.run_sharded(exe, ks, tag="C07.impl", shards=16))) if ks else {}
+        from .p_c08 import PROPERTY as C08P
+        acs = [c for c in cases if c.startswith("A ")]
+        aout = dict(zip(acs, C08P.custom_impl(acs, profile))) if acs else {}
         out = []
         for c in cases:
-            if c.startswith("M "):
+            if c.startswith("A "):
+                out.append(aout[c])
+            elif c.startswith("M "):
                 _, prog, lo, hi = c.split(" ")
                 r = miri(prog, int(lo), int(hi), leaks=False)
                 if r.startswith("UB") and int(hi) - int(lo) > 1:
@@ -106,6 +117,8 @@ class C07(Property):
         return out
 
     def project(self, line):
+        if line in ("accept", "reject"):
+            return line
         p = line.split(" || ")
         if len(p) != 3:
             return re.sub(r" \(first failing seed \d+\)", "", line)
@@ -120,6 +133,10 @@ class C07(Property):
         return None
 
     def spec_raw(self, case, raw):
+        if case.startswith("A "):
+            from .p_c08 import PROPERTY as C08P
+            why = C08P.spec(case, raw)
+            return ("a safe program may then race on the data or the resolver: " + why) if why else None
         if case.startswith("M "):
             return None if raw == "ok" else "Miri on program `%s`: %s" % (case.split(" ")[1], raw)
         return CR.check_discipline(case, raw)
